@@ -132,7 +132,8 @@ theorem consume_runBody_heap (v : Variant) (hv : v.callCopies = true) :
     ∀ (fuel : Nat),
       (∀ (h : Heap) (st : St) (src : Src) (stack : List It) (start preEnd depth : Nat),
         (consume v fuel h st src stack start preEnd depth).h = h) ∧
-      (∀ (h : Heap) (st : St) (stack : List It) (start : Nat), (runBody v fuel h st stack start).h = h) := by
+      (∀ (h : Heap) (st : St) (stack : List It) (start : Nat) (end_ : Option Nat),
+        (runBody v fuel h st stack start end_).h = h) := by
   intro fuel
   induction fuel with
   | zero => exact ⟨by intros; simp [consume], by intros; simp [runBody]⟩
@@ -144,7 +145,7 @@ theorem consume_runBody_heap (v : Variant) (hv : v.callCopies = true) :
       simp only [consume]
       repeat' split
       all_goals first | rfl | exact hf | (simp only [ihc, ihb]; exact hf)
-    · intro h st stack start
+    · intro h st stack start end_
       have hf := flat_heap v hv n h st .none stack
       simp only [runBody]
       repeat' split
